@@ -238,12 +238,17 @@ FALLBACK = {
                      ("rl_window", ["C05"], "window bound 20 + R*T + 1 on generated request traces")],
     "bar_draw": [("bar_screen", ["C01", "C03", "C04"], "screen = printed lines + frame after each of 3 operations out of 11 (inc, messages short / wrapping / multi-line / empty, println short / wrapping, set_length, set_position, reset, suspend) + 5 finishing variants + drop, lengths known / unknown: 3872 states"),
                  ("bar_forced", ["C04", "C05", "C03", "C01"], "finish*, abandon, drop, println, suspend paint with an exhausted 1 Hz limiter"),
+                 ("bar_reuse", ["C04"], "finish behaviour at the second completion of a reused bar: 3 finish behaviours x 3 ways to complete again"),
+                 ("multi_rate", ["C05"], "a skipped update of one bar of a 2 Hz MultiProgress is shown by the next frame another bar triggers (one history, one 700 ms lower-bound sleep)"),
+                 ("multi_logs", ["C03"], "see multi_state"),
                  ("bar_frames", ["C05"], "400 ordinary updates paint at most 20 + rate*T + 1 frames (6 position/length pairs x 2 rates)"),
                  ("bar_hidden", ["C06"], "getters of a hidden bar vs a visible bar after 2 operations + 6 finishing / reset variants: 726 histories"),
                  ("io_fail_bar", ["C18"], "every ProgressBar call under a terminal failing after 0 / 1 / 3 / 8 / 20 operations")],
     "draw_to_term": [("bar_screen", ["C01", "C03", "C19"], "as above (wrapping messages and printed lines exercise the row accounting)"),
                      ("multi_finish", ["C04", "C19"], "finished bars of a MultiProgress stay, in order, for every finish and drop order of three bars")],
-    "multi_state": [("multi_order", ["C02"], "documented order after up to 5 add / insert / insert_from_back / insert_before / insert_after / remove operations: 13204 states"),
+    "multi_state": [("multi_logs", ["C03", "C02"], "lines printed through the MultiProgress or a member bar ('' / text / two lines) after each of 3 operations out of 6, three unfinished bars: 1944 states"),
+                    ("multi_rate", ["C05"], "see bar_draw"),
+                    ("multi_order", ["C02"], "documented order after up to 5 add / insert / insert_from_back / insert_before / insert_after / remove operations: 13204 states"),
                     ("multi_finish", ["C04", "C02"], "finished bars of a MultiProgress stay, in order, for every finish and drop order of three bars"),
                     ("io_fail_multi", ["C18"], "MultiProgress calls under a failing terminal")],
     "c07_position": [("bar_hidden", ["C06", "C07"], "getters after operation histories, hidden vs visible")],
